@@ -1,0 +1,16 @@
+//go:build verif
+
+package meta
+
+// VerifAuthCache returns, for every entry of the client's credential cache, the bcrypt
+// hash the cached password was verified against (user name -> authUser.bhash).
+// Read-only accessor for the verification harness.
+func (c *Client) VerifAuthCache() map[string]string {
+	c.mu.RLock()
+	defer c.mu.RUnlock()
+	m := make(map[string]string, len(c.authCache))
+	for name, au := range c.authCache {
+		m[name] = au.bhash
+	}
+	return m
+}
